@@ -193,25 +193,25 @@ def values_for(entity, attribute):  # noqa: C901  pylint: disable=too-many-branc
         return [35.0, 62.5]
     if a in ("u_count", "v_count", "w_count"):
         if _is(entity, "Octree"):
-            return [int(cur) * 2, int(cur) * 4]
-        return [int(cur) + 1, int(cur) + 3]
+            return [int(cur or 1) * 2, int(cur or 1) * 4]
+        return [int(cur or 1) + 1, int(cur or 1) + 3]
     if a in ("u_cell_size", "v_cell_size", "w_cell_size"):
-        return [float(cur) + 1.5, -2.5, np.array([0.75])]
+        return [float(cur or 1.0) + 1.5, -2.5, np.array([0.75])]
     if a in ("u_cell_delimiters", "v_cell_delimiters", "z_cell_delimiters"):
-        base = np.array(cur, dtype=float)
+        base = np.array(cur, dtype=float) if cur is not None else np.array([0.0, 1.0, 3.0])
         return [base * 2.0, -base - 1.0]
     if a == "octree_cells":
-        plain = np.array([list(r) for r in np.asarray(cur).tolist()], dtype="int32")
+        plain = np.array([list(r) for r in np.asarray(cur).tolist()], dtype="int32") if cur is not None else np.array([[0, 0, 0, 1], [1, 0, 0, 1]], dtype="int32")
         struct = np.asarray(np.core.records.fromarrays(np.roll(plain, 1, axis=0).T, names="I, J, K, NCells", formats="<i4, <i4, <i4, <i4"))
         return [plain[::-1].copy(), struct]
     if a == "layers":
-        base = _plain(cur)
+        base = _plain(cur) if cur is not None else np.array([[0, 0, -1.0], [0, 1, -2.0], [1, 0, -1.5], [1, 1, -3.0]])
         one, two = base.copy(), base.copy()
         one[:, 2] -= 1.0
         two[:, 2] *= 2.0
         return [one, two]
     if a == "prisms":
-        base = _plain(cur)
+        base = _plain(cur) if cur is not None else np.array([[0.0, 0.0, 0.0, 0, 2], [10.0, 0.0, 0.5, 2, 2]])
         one, two = base.copy(), base.copy()
         one[:, 0] += 5.0
         two[:, 2] -= 0.5
